@@ -4,4 +4,4 @@ Extraction Language OCaml.
 Extraction "../ocaml/gen/chunk.ml" Z.of_nat Z.to_nat Z.of_N N.of_nat Z.add
   mk_chunk step run raw_sum chunk_bytes bounded_pos send_loop
   agg_call agg_flush agg_run subscriber_values subscriber_values_default
-  sign_ops send_ops attempt_ops request_ops body_life valid_attempt valid_op copy_progress zsum.
+  sign_ops send_ops attempt_ops request_ops body_life valid_attempt valid_op copy_progress zsum suppressed_ok hyp_ok.
